@@ -317,10 +317,10 @@ func TestC17Widths(t *testing.T) {
 
 // --------------------------------------------- exhaustive small sub-domain
 
-// Every value below 2^13 placed at the bottom, at each 64-bit seam of the
+// Every value below 2^12 placed at the bottom, at each 64-bit seam of the
 // window extraction (two alignments each), at a 29-bit offset and against the
 // top of the 255-bit range, through all four recodings: a finite sub-domain
-// that contains every local carry pattern up to 13 bits at the positions where
+// that contains every local carry pattern up to 12 bits at the positions where
 // the extraction changes words or ends.  Enumerated completely.
 type c17SmallCase struct {
 	V     uint32
@@ -345,7 +345,7 @@ func c17CheckSmall(c c17SmallCase) h.Result {
 func TestC17Small(t *testing.T) {
 	var cases []c17SmallCase
 	for _, sh := range []uint{0, 29, 58, 61, 122, 125, 186, 189, 242} {
-		for v := uint32(0); v < 1<<13; v++ {
+		for v := uint32(0); v < 1<<12; v++ {
 			cases = append(cases, c17SmallCase{V: v, Shift: sh})
 		}
 	}
